@@ -13,6 +13,7 @@ INVARIANT ReadFaultFinal
 INVARIANT WritePrefix
 INVARIANT StreamingPrefix
 INVARIANT Indices
+INVARIANT IndicesLimited
 INVARIANT MergeOut
 INVARIANT BreakEndsReading
 INVARIANT FilesSeparate
